@@ -1537,6 +1537,15 @@ def builtin_call(I, fr, name, args, kwargs, n):
                     o.ci is not None and I.repo.find_method(o.ci, a, missing_ok=True)):
                 return args[2]
             return fr.obj_attr(o, a, n)
+        if isinstance(o, Module):
+            r_ = I.repo.lookup(o, a)
+            if r_ is None:
+                if name == 'hasattr':
+                    return False
+                if len(args) > 2:
+                    return args[2]
+                raise _RaisedExc(Raised('AttributeError', n))
+            return True if name == 'hasattr' else fr.entity(r_, n)
         if isinstance(o, ExtRef) and o.alias[0] == 'module':
             full = o.alias[1] + '.' + a
             if full in I.native:
@@ -1776,7 +1785,8 @@ def bound_native(I, fr, bn, args, kwargs, n):
         return '<formatted>'
     if isinstance(b, str) and b not in I.sym_strings and name in (
             'lower', 'upper', 'strip', 'lstrip', 'rstrip', 'isdigit', 'isalpha', 'isspace', 'isalnum', 'title',
-            'capitalize', 'count', 'find', 'zfill') and all(isinstance(a, (str, Rat)) for a in args):
+            'capitalize', 'count', 'find', 'rfind', 'index', 'zfill', 'swapcase', 'casefold') \
+            and all(isinstance(a, (str, Rat)) for a in args):
         pa = [a if isinstance(a, str) else _as_int(a, n) for a in args]
         r = getattr(b, name)(*pa)
         return C(r) if isinstance(r, int) and not isinstance(r, bool) else r
